@@ -119,10 +119,8 @@ def _work(args):
             if len(out["samples"]) < 1 and ctx.nontrivial:
                 out["samples"].append({"index": i, "seed": seed, "desc": desc})
             if v is not None:
-                if len(out["violations"]) < 8:
-                    out["violations"].append({"index": i, "seed": seed, "desc": desc, **v.record()})
-                else:
-                    out["violations"].append({"index": i, "seed": seed, "desc": None, **v.record()})
+                nsame = sum(1 for r in out["violations"] if r["oracle_id"] == v.oracle_id and r["desc"] is not None)
+                out["violations"].append({"index": i, "seed": seed, "desc": desc if nsame < 3 else None, **v.record()})
             if (i & 63) == 0:
                 gc.collect()
     finally:
@@ -303,7 +301,7 @@ def run_batch(prop, spec, tier, verif_seed, runs=None, wall=None, workers=None, 
             groups.setdefault(rec["oracle_id"], []).append(rec)
         min_budget = 20.0 if tier == "quick" else 120.0
         for oracle_id, recs in list(groups.items())[:4]:
-            withdesc = [r for r in recs if r["desc"] is not None]
+            withdesc = [r for r in recs if r["desc"] is not None] or recs[:1]
             rec = min(withdesc, key=lambda r: len(json.dumps(_plain(r["desc"]))))
             orig_ops = len(rec["desc"].get("ops", [])) if isinstance(rec["desc"].get("ops"), list) else None
             mdesc, ok = minimise(world, prop, rec["desc"], oracle_id, known, budget_s=min_budget / max(1, min(4, len(groups))))
